@@ -987,8 +987,11 @@ func (r *walRun) run() string {
 				emit("nowal")
 				continue
 			}
-			lg := dirtyLog() // GetLog into a reused struct: every field must be overwritten
+			lg, held := dirtyHeld() // GetLog into a reused struct: every field must be overwritten
 			err := r.w.GetLog(idx, &lg)
+			if msg := held(); msg != "" {
+				r.c.witness("C12", "read-overwrites-held-entry", "GetLog: "+msg, r.line)
+			}
 			r.tot["log_entries_read"]++
 			nom := r.alts[0]
 			if err != nil {
